@@ -27,8 +27,10 @@ ROOT_PRESETS = [
     {"rx": "d3pi_h+r", "align": "dpd1", "dyn": "bw"}, {"rx": "ppg_h", "dyn": "bw"},
     {"rx": "ppg_c", "dyn": "probeA"}, {"rx": "psi4_h", "dyn": "bw", "scalar": True, "stable": [0, 1, 2, 3]},
     {"rx": "gpp_c", "stable": [0, 1, 2], "scalar": True, "dyn": "bw_ff"},
+    {"rx": "kkpi_h", "dyn": "bw"}, {"rx": "dkpp_h", "dyn": "bw_ffonly"}, {"rx": "dkpp_h+r", "align": "dpd3", "stable": [1, 2, 3]},
+    {"rx": "etac_c", "dyn": "bw_ff", "scalar": True}, {"rx": "etac_c+r", "align": "dpd1", "dyn": "bw"},
 ]
-NUMERIC_RX = {"gpp_c", "gpp_h", "gpp1_h", "gpp1_h+r", "gpp_h+r", "d3pi_h", "d3pi_h+r", "ppg_h", "ppg_c"}
+NUMERIC_RX = {"dkpp_h", "etac_c", "gpp_c", "gpp_h", "gpp1_h", "gpp1_h+r", "gpp_h+r", "d3pi_h", "d3pi_h+r", "ppg_h", "ppg_c"}
 
 
 def generate(seed_: int, run: int, reactions: list[str]) -> dict:
